@@ -699,7 +699,7 @@ def _d_period(chk):
     ipx = Interp(overrides={"_from_mapping": lambda ip_, a, k: SymObj(None, dict(a[0]), "payload"),
                             "OrbitCorrectionDomainPayload._from_mapping": lambda ip_, a, k: SymObj(None, dict(a[0]), "payload")})
     out = ipx.apply(ipx.getattr(svc2, "correct"), [], {"options": SymObj(None, {"to_dict": lambda: {}}, "opts")})
-    ok = isinstance(out, tuple) and out[0] == sp.Symbol("XC") and sp.simplify(S(out[1]) - 2 * hp) == 0 and len(applied) == 1 and applied[0].attrs.get("half_period") == hp
+    ok = isinstance(out, tuple) and out[0] == sp.Symbol("XC") and sp.simplify(S(out[1]) - 2 * hp) == 0 and len(applied) >= 1 and all(p.attrs.get("half_period") == hp for p in applied)
     chk.check(ok, "C05.d", f"{OS}::_OrbitCorrectionService.correct", f"correct() returns period {out[1] if isinstance(out, tuple) else out}, expected 2*half_period of its own result",
               sample="(x_corrected, 2*half_period, result); apply_correction(payload of the same result)")
     # ... on a cache hit too: a second correct() with the same options (after the caller has overridden the period, say) must put the corrected state and
@@ -716,10 +716,12 @@ def _d_period(chk):
                                          "make_key": lambda *a: "KEY", "get_or_create": goc, "apply_correction": lambda p: applied.append(p),
                                          "correction_options": SymObj(None, {"to_dict": lambda: {}}, "opts")}, "svc")
     o1 = ipx.apply(ipx.getattr(svc3, "correct"), [], {"options": SymObj(None, {"to_dict": lambda: {}}, "opts")})
+    n1 = len(applied)
     o2 = ipx.apply(ipx.getattr(svc3, "correct"), [], {"options": SymObj(None, {"to_dict": lambda: {}}, "opts")})
-    ok = len(applied) == 2 and all(p.attrs.get("half_period") == hp for p in applied) and isinstance(o2, tuple) and sp.simplify(S(o2[1]) - 2 * hp) == 0
+    # at least once per call (applying twice in one call is idempotent, hence allowed)
+    ok = n1 >= 1 and len(applied) > n1 and all(p.attrs.get("half_period") == hp for p in applied) and isinstance(o2, tuple) and sp.simplify(S(o2[1]) - 2 * hp) == 0
     chk.check(ok, "C05.d", f"{OS}::_OrbitCorrectionService.correct[cache hit]",
-              f"two correct() calls with equal options apply the result {len(applied)} time(s): on the cache hit the orbit keeps whatever state / period it had while success is reported",
+              f"two correct() calls with equal options apply the result {n1} + {len(applied) - n1} time(s): on the cache hit the orbit keeps whatever state / period it had while success is reported",
               sample="correct() twice: apply_correction(payload of the cached result) both times")
     chk.count("functions partially evaluated", 2)
     # half period comes from the same event function as the residual
